@@ -26,5 +26,5 @@ def _nontrivial(c):
     return s["tasks"] >= 2 and s["nested"] >= 1
 
 
-mach.install(globals(), "C01", ("EvStep", "EvGot", "EvDone"), ("C01:",), PROFILES, n_quick=300, n_thorough=5000,
+mach.install(globals(), "C01", ("EvStep", "EvGot", "EvDone"), ("C01:",), PROFILES, n_quick=300, n_thorough=25000,
              nontrivial=_nontrivial, level="proof")
